@@ -549,7 +549,7 @@ def replay_event(res, path):
     evf = os.path.join(wd, "replay.event.json")
     json.dump(case["event"], open(evf, "w"))
     tr = os.path.join(wd, f"replay.{cfg}.ndjson")
-    if case["event"].get("k") == "poly":
+    if case.get("mode") in ("poly", "mat", "rel"):
         # the recorder is deterministic in (mode, seed, draws): record again and keep the event with the same number
         full = os.path.join(wd, f"replay.full.{cfg}.ndjson")
         p = run_bin(cfg, "rec", [case["mode"], full, str(case["seed"]), str(case["draws"])], env_extra={"HX_OPS": ",".join(case["ops"])} if case.get("ops") else None)
@@ -558,7 +558,7 @@ def replay_event(res, path):
         if p.returncode != 0 or line is None:
             raise ToolError(f"rec {case['mode']} did not reproduce event {want['i']}: {p.stderr[-800:]}")
         got = json.loads(line)
-        if any(got.get(k) != want.get(k) for k in ("op", "ty", "sp", "a", "b", "m", "v", "t")):
+        if any(got.get(k) != want.get(k) for k in ("op", "ty", "sp", "a", "b", "m", "v", "t", "d", "q0", "q1")):
             raise ToolError(f"rec {case['mode']} produced different operands for event {want['i']}")
         open(tr, "w").write(line)
     else:
